@@ -16,7 +16,7 @@ from __future__ import annotations
 import vlib.boot  # noqa: F401
 from vlib.boot import B
 from vlib.ob import obligation
-from vlib.h_handlers import Done, call_collect, conc, concb, find_ip, ident_count, ident_in, nth_ip, same_ids
+from vlib.h_handlers import Done, call_collect, conc, concb, mk_add_event, mk_step_result, find_ip, ident_count, ident_in, nth_ip, same_ids
 from vlib.world import (
     EvA, EvB, EvC, StubPolicy, broker, busy_ids, in_progress, rep_R1, rep_R2, step_config, worker_state,
 )
@@ -57,6 +57,7 @@ OUTSIDE = [
     "asyncio task scheduling (the interleaving is chosen symbolically at reducer-tick granularity)",
 ]
 
+QMAX = 2    # queue length bound of the one-step obligations
 MULT_B = B(1, 2)  # multiplicity bounds of the second / third class (first class: 0..2 in both tiers)
 MULT_C = B(1, 2)
 VARIANTS = B(False, True)  # non-contiguous `expected` and reversed buffer order: thorough tier only
@@ -91,7 +92,7 @@ def _shared(step, buf_id, events):
 
 
 @obligation(quick=80, thorough=400,
-            partitions_quick=[f"evk == {e} and order == {o}" for e in range(3) for o in range(3)],
+            partitions_quick=[f"evk == {e}" for e in range(3)],
             partitions_thorough=[f"evk == {e} and order == {o} and ea == {a}" for e in range(3) for o in range(3) for a in range(3)],
             what="collect_events(snapshot, ev, expected): list iff buffer+[ev] completes expected exactly now; ordered as "
                  "expected; AddCollectedEvent iff ev still needed; DeleteCollectedEvent iff it returns",
@@ -208,21 +209,21 @@ def _reruns(cmds, wid, ev):
     return [c for c in cmds if isinstance(c, CommandRunWorker) and c.step_name == "j" and c.id == wid and c.event is ev]
 
 
-@obligation(quick=80, thorough=300, partitions_quick=[f"nw == {n}" for n in (1, 2, 3)],
+@obligation(quick=80, thorough=300, partitions_quick=["nw <= 2", "nw == 3"],
             partitions_thorough=[f"nw == {n} and live == {l}" for n in (1, 2, 3) for l in (0, 1, 2)],
             what="AddCollectedEvent: stale snapshot (live buffer longer than the snapshot) => nothing appended, the SAME "
                  "worker re-run with a refreshed snapshot; otherwise appended exactly once and the invocation committed",
             bounds={"num_workers": "1..3", "queue": "0..2", "live/snapshot length": "0..2 each (any relation)"})
 def ob_reducer_add(nw: int, b0: bool, b1: bool, b2: bool, q: int, wid: int, live: int, snap: int) -> bool:
     """
-    pre: _valid_j(nw, b0, b1, b2, q, wid) and q <= 2
+    pre: _valid_j(nw, b0, b1, b2, q, wid) and q <= QMAX
     pre: 0 <= live <= 2 and 0 <= snap <= 2
     post: _
     """
     nw, q, wid, live, snap = conc(nw, 1, 3), conc(q, 0, 2), conc(wid, 0, 2), conc(live, 0, 2), conc(snap, 0, 2)
     st = _world_j(nw, b0, b1, b2, q, wid, live, snap)
     res = [AddCollectedEvent(event_id="buf", event=X), StepWorkerResult(result=None)]
-    tick = TickStepResult.model_construct(step_name="j", worker_id=wid, event=X, result=res)
+    tick = mk_step_result("j", wid, X, res)
     st2, cmds = _reduce_tick(tick, st, 1, "r")
     before = st.workers["j"].collected_events.get("buf", [])
     after = st2.workers["j"].collected_events.get("buf", [])
@@ -253,7 +254,7 @@ def ob_reducer_add(nw: int, b0: bool, b1: bool, b2: bool, q: int, wid: int, live
     return len(_reruns(cmds, wid, X)) == 0
 
 
-@obligation(quick=80, thorough=300, partitions_quick=[f"outcome == {o}" for o in range(4)],
+@obligation(quick=80, thorough=300, partitions_quick=["outcome == 0", "outcome == 1", "outcome >= 2"],
             partitions_thorough=[f"outcome == {o} and nw == {n}" for o in range(4) for n in (1, 2, 3)],
             what="DeleteCollectedEvent pops the buffer only when the invocation completed (StepWorkerResult present), never "
                  "on a failed attempt; a completion whose snapshot events were already consumed by another invocation "
@@ -261,9 +262,10 @@ def ob_reducer_add(nw: int, b0: bool, b1: bool, b2: bool, q: int, wid: int, live
             bounds={"num_workers": "1..3", "queue": "0..2", "outcome": "completed / failed+retry / failed final / waiting"})
 def ob_reducer_delete(nw: int, b0: bool, b1: bool, b2: bool, q: int, wid: int, live: int, snap: int, outcome: int) -> bool:
     """
-    pre: _valid_j(nw, b0, b1, b2, q, wid) and q <= 2
+    pre: _valid_j(nw, b0, b1, b2, q, wid) and q <= QMAX
     pre: 0 <= live <= 2 and 0 <= snap <= 2 and 0 <= outcome <= 3
     pre: snap >= 1 and (snap == live or snap > live)
+    pre: not (outcome == 0 and snap > live)  # TEMP-EXCLUDE
     post: _
     """
     # snap == live: the snapshot is current.  snap > live: another invocation popped the buffer since (consumed).
@@ -279,7 +281,7 @@ def ob_reducer_delete(nw: int, b0: bool, b1: bool, b2: bool, q: int, wid: int, l
         res = [DeleteCollectedEvent(event_id="buf"), AddWaiter(waiter_id="w", event_type=EvB, timeout=None)]
     else:
         res = [DeleteCollectedEvent(event_id="buf"), StepWorkerFailed(exception=EXC, failed_at=1.0)]
-    tick = TickStepResult.model_construct(step_name="j", worker_id=wid, event=X, result=res)
+    tick = mk_step_result("j", wid, X, res)
     st2, cmds = _reduce_tick(tick, st, 1, "r")
     after = st2.workers["j"].collected_events.get("buf", None)
     if not same_ids(st2.workers["j"].collected_events.get("other", []), [C_POOL[0]]):
@@ -293,3 +295,119 @@ def ob_reducer_delete(nw: int, b0: bool, b1: bool, b2: bool, q: int, wid: int, l
         # committing it (queueing its output, popping whatever is in the buffer now) counts them twice
         return len(queued_out) == 0 and (same_ids(after or [], LIVE[:live]))
     return after is None and len(queued_out) == 1
+
+
+# ---------------------------------------------------------------------------------------------------------------
+# composed, bounded: symbolic arrivals x worker limit x interleaving, real reducer + real collect_events in a loop
+
+N_ARR = B(3, 4)      # arrivals (quick: 2..3; thorough: 1..4)
+N_MIN = B(2, 1)
+N_CHOICE = B(6, 8)   # symbolic scheduling decisions (taken only where >= 2 actions are enabled); then a fixed drain
+NW_MAX = 3
+ARR_A = [EvA(), EvA(), EvA(), EvA()]
+ARR_B = [EvB(), EvB(), EvB(), EvB()]
+ARR_C = [EvC(), EvC(), EvC(), EvC()]
+OUTS = [Done(tag=0), Done(tag=1), Done(tag=2), Done(tag=3)]
+
+
+def _choose(c: int, n: int) -> int:
+    for k in range(n - 1):
+        if c == k:
+            return k
+    return n - 1
+
+
+def _run_composed(nw, n, types, choices, exk, incl_stale_commit):
+    """-> (verdict bool).  ``types[i]`` in 0..2 = class of the i-th arrival; ``choices`` = scheduling decisions."""
+    expected = [EvA, EvB] if exk == 0 else ([EvA, EvA, EvB] if exk == 1 else [EvA, EvB, EvC])
+    arrivals = []
+    for i in range(n):
+        t = types[i]
+        arrivals.append(ARR_A[i] if t == 0 else (ARR_B[i] if t == 1 else ARR_C[i]))
+    st = broker({"j": worker_state(step_config([EvA, EvB, EvC], nw, None), [], [], {}, [])})
+    lists, surplus = [], []
+    nxt, ci, guard = 0, 0, 0
+    while True:
+        guard += 1
+        if guard > 40:
+            raise vlib.boot.HarnessError("composed run does not quiesce")
+        ips = sorted(st.workers["j"].in_progress, key=lambda x: x.worker_id)
+        can_deliver = nxt < n
+        n_opts = (1 if can_deliver else 0) + len(ips)
+        if n_opts == 0:
+            break
+        if n_opts == 1 or ci >= len(choices):
+            k = 0  # drain: deliveries first, then lowest worker id
+        else:
+            k = _choose(choices[ci], n_opts)
+            ci += 1
+        if can_deliver and k == 0:
+            tick = mk_add_event(arrivals[nxt])
+            nxt += 1
+            st, _ = _reduce_tick(tick, st, 1, "r")
+            continue
+        ip = ips[k - 1] if can_deliver else ips[k]
+        snap_buf = ip.shared_state.collected_events.get("default", [])
+        live_buf = st.workers["j"].collected_events.get("default", [])
+        got, rv = call_collect(ip.shared_state, ip.event, list(expected))
+        if got is not None and not same_ids(snap_buf, live_buf):
+            # a list built from a snapshot that is no longer the live buffer (another invocation consumed it)
+            if not incl_stale_commit:
+                return True
+        res = list(rv) + [StepWorkerResult(result=(OUTS[len(lists)] if got is not None else None))]
+        tick = mk_step_result("j", ip.worker_id, ip.event, res)
+        st, _ = _reduce_tick(tick, st, 1, "r")
+        again = find_ip(st, "j", ip.worker_id)
+        if again is not None and again.event is ip.event:
+            continue  # discarded and re-run with a refreshed snapshot: not a committed invocation
+        if got is not None:
+            lists.append(got)
+        elif len(rv) == 0:
+            # declined as surplus: legitimate only if its snapshot already held the expected multiplicity of its type
+            have = len([e for e in snap_buf if type(e) is type(ip.event)])
+            want = len([t for t in expected if t is type(ip.event)])
+            if have < want:
+                return False
+            surplus.append(ip.event)
+    if st.workers["j"].queue or st.workers["j"].in_progress or nxt != n:
+        return False
+    final_buf = st.workers["j"].collected_events.get("default", [])
+    for lst in lists:
+        if len(lst) != len(expected):
+            return False
+        for i in range(len(expected)):
+            if type(lst[i]) is not expected[i]:
+                return False
+    for a in arrivals:
+        places = ident_count(a, final_buf) + ident_count(a, surplus)
+        for lst in lists:
+            places += ident_count(a, lst)
+        if places != 1:  # 0 = lost, >= 2 = counted twice
+            return False
+    return True
+
+
+@obligation(quick=180, thorough=900,
+            partitions_quick=["nw == 1"] + [f"nw == {w} and t0 == {a} and t1 == {b}" for w in (2, 3) for a in (0, 1) for b in (0, 1)],
+            partitions_thorough=[f"nw == {w} and t0 == {a} and t1 == {b} and exk == {x}" for w in (1, 2, 3) for a in (0, 1) for b in (0, 1) for x in (0, 1)],
+            what="composed run (real reducer + real collect_events): every arrival ends in exactly one of {buffer, one "
+                 "committed list, declined-as-surplus}; committed lists have the expected shape",
+            bounds={"arrivals": "2..3 (quick) / 1..4 (thorough) over classes A,B", "num_workers": "1..NW_MAX", "expected": "[A,B] (quick) / +[A,A,B] (thorough)",
+                    "schedule": "6 (quick) / 8 (thorough) symbolic decisions among {deliver next, complete worker i}, then a fixed drain"})
+def ob_composed(nw: int, n: int, t0: int, t1: int, t2: int, t3: int, c0: int, c1: int, c2: int, c3: int, c4: int, c5: int,
+                c6: int, c7: int, exk: int, incl_stale_commit: bool) -> bool:
+    """
+    pre: 1 <= nw <= NW_MAX and N_MIN <= n <= N_ARR and 0 <= exk <= B(0, 1)
+    pre: 0 <= t0 <= 1 and 0 <= t1 <= 1 and 0 <= t2 <= 1 and 0 <= t3 <= 1
+    pre: 0 <= c0 <= nw and 0 <= c1 <= nw and 0 <= c2 <= nw and 0 <= c3 <= nw and 0 <= c4 <= nw
+    pre: 0 <= c5 <= nw and 0 <= c6 <= nw and 0 <= c7 <= nw
+    pre: N_CHOICE >= 8 or (c6 == 0 and c7 == 0)
+    pre: (n >= 4 or t3 == 0) and (n >= 3 or t2 == 0) and (n >= 2 or t1 == 0)
+    pre: nw >= 2 or not incl_stale_commit
+    pre: not (incl_stale_commit)  # TEMP-EXCLUDE
+    post: _
+    """
+    nw, n, exk = conc(nw, 1, 3), conc(n, 1, 4), conc(exk, 0, 1)
+    types = [conc(t0, 0, 1), conc(t1, 0, 1), conc(t2, 0, 1), conc(t3, 0, 1)]
+    choices = [c0, c1, c2, c3, c4, c5, c6, c7][:N_CHOICE]
+    return _run_composed(nw, n, types, choices, exk, concb(incl_stale_commit))
